@@ -57,6 +57,14 @@ pub struct PropMeta {
     pub assumptions: Vec<String>,
 }
 
+/// Records what the job is about to do, so that the parent can name the case if real server code
+/// kills the process (allocation failure, stack overflow, abort).
+pub fn breadcrumb(v: &Value) {
+    if let Ok(p) = std::env::var("VX_BREADCRUMB") {
+        let _ = std::fs::write(p, v.to_string());
+    }
+}
+
 pub fn hash64(bytes: &[u8]) -> u64 {
     let h = blake3::hash(bytes);
     u64::from_le_bytes(h.as_bytes()[..8].try_into().unwrap())
@@ -108,6 +116,7 @@ pub fn run_pool(jobs: &[Job], par: usize, job_timeout: Duration) -> Vec<Result<J
                 .arg("job")
                 .arg(&spec_path)
                 .arg(&out_path)
+                .env("VX_BREADCRUMB", tmp.join(format!("crumb{next}.json")))
                 .stdin(Stdio::null())
                 .stdout(Stdio::null())
                 .stderr(Stdio::piped())
@@ -129,11 +138,35 @@ pub fn run_pool(jobs: &[Job], par: usize, job_timeout: Duration) -> Vec<Result<J
                     let res = match std::fs::read(&r.out_path) {
                         Ok(bytes) if status.success() => serde_json::from_slice::<JobResult>(&bytes)
                             .map_err(|e| format!("job {} produced unreadable result: {e}", r.idx)),
-                        _ => Err(format!(
-                            "job {} died ({status}); stderr tail: {}",
-                            r.idx,
-                            err.chars().rev().take(1500).collect::<String>().chars().rev().collect::<String>()
-                        )),
+                        _ => {
+                            use std::os::unix::process::ExitStatusExt;
+                            let crumb = std::fs::read_to_string(tmp.join(format!("crumb{}.json", r.idx))).ok();
+                            match (status.signal(), crumb) {
+                                // killed by a signal while executing a recorded case: the real code took the
+                                // process down (a panic of the harness itself exits with code 101 instead)
+                                (Some(sig), Some(c)) => {
+                                    let first = err.lines().next().unwrap_or("").chars().take(160).collect::<String>();
+                                    let case: Value = serde_json::from_str(&c).unwrap_or(Value::Null);
+                                    let class: String = first.chars().filter(|ch| !ch.is_ascii_digit()).collect();
+                                    Ok(JobResult {
+                                        executions: 1,
+                                        violations: vec![Violation {
+                                            property: jobs[r.idx].prop.clone(),
+                                            key: format!("{}:process-died:signal-{sig}:{class}", jobs[r.idx].prop),
+                                            message: format!("the process running the server died (signal {sig}: {first}) while executing {}", c.chars().take(600).collect::<String>()),
+                                            replay: json!({"kind": "died", "case": case, "job": jobs[r.idx].spec}),
+                                        }],
+                                        capped: Some(format!("job {} was cut short by a process death (reported as a violation)", r.idx)),
+                                        ..Default::default()
+                                    })
+                                }
+                                _ => Err(format!(
+                                    "job {} died ({status}); stderr tail: {}",
+                                    r.idx,
+                                    err.chars().rev().take(1500).collect::<String>().chars().rev().collect::<String>()
+                                )),
+                            }
+                        }
                     };
                     results[r.idx] = Some(res);
                     running.swap_remove(i);
